@@ -788,7 +788,7 @@ func main() {
 		"Known-finding class avoided (C23-1/2/3, DESIGN 7 #14): a run of comments directly followed by an automatic semicolon in the go1.23 stream [in skip mode except when that comment ends the input = the property's allowance] - generated inputs are defused by inserting an explicit ';' in front of the run; bounded-exhaustive inputs of the class are only checked for error equivalence. "+
 		"Oracle: extension-free (std stream has no '~' token, no ILLEGAL '#', no identifier macro) => fork errors>0 iff std errors>0, and if std has no error: identical (token, literal, offset, line, column, //line-adjusted position) sequences and line tables. "+
 		"A case is non-trivial when the full sequence comparison applied (extension-free, no error, outside the known-finding class); distinct by mode+input bytes")
-	h := &harness{a: a, rep: rep, stride: 50}
+	h := &harness{a: a, rep: rep, stride: 70}
 	if a.Thorough() {
 		h.stride = 250
 	}
@@ -968,7 +968,7 @@ func (h *harness) checkExh(src []byte) {
 		if v != nil {
 			h.report(append([]byte(nil), src...), comments, "bounded-exhaustive", v)
 		}
-		if h.cw != nil && len(src) == 4 && (src[0]+src[1]*3+src[2]*7+src[3]*11)%97 == 0 && kind != "std-broken" && kind != "panic" && kind != "stuck" {
+		if h.cw != nil && len(src) == 4 && (src[0]+src[1]*3+src[2]*7+src[3]*11)%131 == 0 && kind != "std-broken" && kind != "panic" && kind != "stuck" {
 			h.emitCase(append([]byte(nil), src...), comments)
 		}
 	}
